@@ -63,7 +63,7 @@ def run_unit(ctx, proofs_ok):
     with C.Threads():
         coll = C.Collector(ctx, "C03", "graph")
         pyc = C.Collector(ctx, "C03", "graph-c02side")
-        scale = C.budget(ctx, 8, 36)
+        scale = C.budget(ctx, 8, 100)
         res = C.graph_streams(ctx, rng, torch, scale, pyc, "c03", envs=("flp", "mcp"), with_gen=True)
         unit = _evaluate(ctx, res, coll, "")
         if (coll.n_disagree or not proofs_ok or any("C03_graph" in b for b in ctx.broken)) and not coll.best:
